@@ -317,6 +317,11 @@ func genC03(r *rng, n int, hostile bool) []string {
 			code, _ = mutateCode(r, refHOTP(key, cc, 6, 0))
 		}
 		out = append(out, fmt.Sprintf("vhotp %s %s %d %s", hxs(spell(r, key)), hxs(code), c, p))
+		if r.intn(8) == 0 {
+			// the string object returned by a generation, validated at another counter
+			c2 := c + uint64(r.intn(int(2*w+7))) - uint64(w+3)
+			out = append(out, fmt.Sprintf("gvhotp %s %d %d %s", hxs(spell(r, key)), c, c2, p))
+		}
 	}
 	return out
 }
@@ -364,6 +369,17 @@ func genC04(r *rng, n int, hostile bool) []string {
 			code, _ = mutateCode(r, refHOTP(key, step+uint64(r.intn(3))-1, 6, 0))
 		}
 		out = append(out, fmt.Sprintf("vtotp %s %s %s %s", hxs(spell(r, key)), hxs(code), timeFields(r, sec), p))
+		if r.intn(6) == 0 && sec >= 0 {
+			// the string object returned by a generation, validated at another instant (possibly far away)
+			t2 := sec + int64(r.intn(int(2*w+7))-int(w+3))*int64(ep)
+			if r.intn(3) == 0 {
+				t2 = pick(r, []int64{59, 1111111109, 2000000000, sec + 1000003})
+			}
+			if t2 < 0 {
+				t2 = 0
+			}
+			out = append(out, fmt.Sprintf("gvtotp %s %d %d %s", hxs(spell(r, key)), sec, t2, p))
+		}
 	}
 	return out
 }
@@ -390,6 +406,9 @@ func grammarSuite(r *rng, wild bool) string {
 	d := 4 + r.intn(7)
 	if wild {
 		d = r.intn(12)
+		if r.intn(8) == 0 {
+			h = pick(r, []string{"SHA384", "SHA224", "SHA2", "SHA3", "SHA", "SHA0", "SHA11", "SHA-1", "SHA2560", "MD5", "sha384"})
+		}
 	}
 	s := fmt.Sprintf("OCRA-1:HOTP-%s-%d:", h, d)
 	var toks []string
@@ -801,6 +820,10 @@ func genC08(r *rng, n int, hostile bool) []string {
 		}
 		chunk := pick(r, []int{0, 0, 1, 7, 16, 19, 20, 31, 32, 63, 64})
 		out = append(out, fmt.Sprintf("rnd %d %s %d", a, hx(st), chunk))
+		if i%25 == 0 {
+			// interleaved calls: the results must be the encodings of disjoint consecutive stream segments
+			out = append(out, fmt.Sprintf("rndpar %d %s %d", r.intn(3), hx(r.bytes(64*8)), 2+r.intn(7)))
+		}
 	}
 	return out
 }
